@@ -264,45 +264,60 @@ func derefType(t types.Type) types.Type {
 // every exit after a successful waitResponse, also when reading the response failed with a broker error and the
 // connection is kept: otherwise every later SetWriteDeadline/SetReadDeadline also moves the socket's read deadline.
 func c11DoUnsetsDeadline(p *load.Program, r *oblig.Report) {
-	const rule = "C11.R14 the deadline binding taken by waitResponse is released on every exit of do"
-	fn := p.Func("", "(*Conn).do")
-	if fn == nil {
-		r.Lost(rule, "kafka.(*Conn).do")
-		return
-	}
-	var wait *ssa.Call
-	an.EachInstr(fn, func(ins ssa.Instruction) {
-		if c, ok := ins.(*ssa.Call); ok && c.Call.StaticCallee() != nil && an.RefFuncName(c.Call.StaticCallee()) == "waitResponse" {
-			wait = c
+	const rule = "C11.R14 the deadline binding taken by waitResponse is released on every exit"
+	n := 0
+	for _, fn := range p.ModuleFunctions() {
+		if fn.Pkg != p.SSAPkg("") {
+			continue
 		}
-	})
-	if wait == nil {
-		r.Bad(rule, "(*Conn).do → waitResponse", p.Pos(fn.Pos()), "a call of waitResponse", "not found")
-		return
-	}
-	// the success edge of `if err != nil { return err }` after waitResponse
-	var from *an.Point
-	for _, b := range an.Blocks(fn) {
-		_, ci := an.IfCond(b)
-		if e := ci.Edge(token.EQL); e >= 0 && an.IsNilConst(ci.Y) {
-			if ex, isEx := an.Unwrap(ci.X).(*ssa.Extract); isEx && ex.Tuple == ssa.Value(wait) {
-				from = &an.Point{B: b.Succs[e], Idx: -1}
+		var wait *ssa.Call
+		an.EachInstr(fn, func(ins ssa.Instruction) {
+			if c, ok := ins.(*ssa.Call); ok && c.Parent() == fn && c.Call.StaticCallee() != nil && an.RefFuncName(c.Call.StaticCallee()) == "waitResponse" {
+				wait = c
+			}
+		})
+		if wait == nil {
+			continue
+		}
+		n++
+		construct := an.ShortFunc(fn) + " → unsetConnReadDeadline (or a Batch that takes the connection over) on every path after waitResponse succeeded"
+		// the success edge of `if err != nil { return … }` after waitResponse
+		var from *an.Point
+		for _, b := range an.Blocks(fn) {
+			_, ci := an.IfCond(b)
+			if e := ci.Edge(token.EQL); e >= 0 && an.IsNilConst(ci.Y) {
+				for _, v := range []ssa.Value{an.Unwrap(ci.X), an.Unwrap(an.CellValueAt(ci.X))} {
+					if ex, isEx := v.(*ssa.Extract); isEx && ex.Tuple == ssa.Value(wait) {
+						from = &an.Point{B: b.Succs[e], Idx: -1}
+					}
+				}
 			}
 		}
+		if from == nil {
+			r.Bad(rule, construct, p.Pos(wait.Pos()), "if err != nil { return err } after waitResponse", "the error test was not found")
+			continue
+		}
+		ok, miss := an.MustPass(fn, *from, func(ins ssa.Instruction) bool {
+			switch x := ins.(type) {
+			case *ssa.Call:
+				return x.Call.StaticCallee() != nil && an.RefFuncName(x.Call.StaticCallee()) == "unsetConnReadDeadline"
+			case *ssa.Defer:
+				return x.Call.StaticCallee() != nil && an.RefFuncName(x.Call.StaticCallee()) == "unsetConnReadDeadline"
+			case *ssa.Store:
+				// the Batch that is handed out owns the connection; Batch.close releases the binding (C02.R5, C11.R10)
+				if fa, isFa := x.Addr.(*ssa.FieldAddr); isFa && an.FieldName(fa.X.Type(), fa.Field) == "conn" && strings.HasSuffix(derefType(fa.X.Type()).String(), ".Batch") {
+					return !an.IsNilConst(x.Val)
+				}
+			}
+			return false
+		}, nil)
+		found := ""
+		if !ok && miss != nil {
+			found = "the exit at " + p.Pos(miss.Pos()) + " is reached with the binding still in place"
+		}
+		r.Check(ok, rule, construct, p.Pos(fn.Pos()), "d.unsetConnReadDeadline(); lock.Unlock(); return err", found)
 	}
-	if from == nil {
-		r.Bad(rule, "(*Conn).do → error test of waitResponse", p.Pos(wait.Pos()), "if err != nil { return err }", "not found")
-		return
-	}
-	ok, miss := an.MustPass(fn, *from, func(ins ssa.Instruction) bool {
-		c, isC := ins.(*ssa.Call)
-		return isC && c.Call.StaticCallee() != nil && an.RefFuncName(c.Call.StaticCallee()) == "unsetConnReadDeadline"
-	}, nil)
-	found := ""
-	if !ok && miss != nil {
-		found = "the exit at " + p.Pos(miss.Pos()) + " is reached without d.unsetConnReadDeadline()"
-	}
-	r.Check(ok, rule, "(*Conn).do → d.unsetConnReadDeadline() on every path after waitResponse succeeded", p.Pos(fn.Pos()), "d.unsetConnReadDeadline(); lock.Unlock(); return err", found)
+	r.RequireCount(rule, n, 3)
 }
 
 var _ = constant.MakeInt64
@@ -847,4 +862,124 @@ func c19TopicErrorFirst(p *load.Program, r *oblig.Report, rule string) {
 		}
 	}
 	r.Check(okT && fetch != nil, rule, "kafka.(*Client).ConsumerOffsets fails when the topic's metadata carries an error", p.Pos(fn.Pos()), "topic := metadata.Topics[0]; if topic.Error != nil { return nil, … } before the offsets are fetched", "no such test before OffsetFetch")
+}
+
+// c06ReadAccounting: Batch.Read hands readMessage a callback for the value; what the callback returns is the number of
+// response bytes left, from which Batch.close computes how much to drain before the read lock is released. The value
+// may be longer than the caller's buffer: the rest of it must be consumed (discardN) — or counted as not consumed.
+// Decided: every return of the callbacks of Batch.Read reports `size` untouched, `size` minus the bytes io.ReadFull
+// actually read, or the result of discardN.
+func c06ReadAccounting(p *load.Program, r *oblig.Report) {
+	const rule = "C06.R9 Batch.Read accounts for the bytes it really consumed"
+	fn := p.Func("", "(*Batch).Read")
+	if fn == nil {
+		r.Lost(rule, "kafka.(*Batch).Read")
+		return
+	}
+	n := 0
+	var bad []string
+	for _, cb := range fn.AnonFuncs {
+		if len(cb.Params) != 3 || cb.Signature.Results().Len() != 2 {
+			continue
+		}
+		size := cb.Params[1]
+		for _, b := range cb.Blocks {
+			ret, ok := b.Instrs[len(b.Instrs)-1].(*ssa.Return)
+			if !ok {
+				continue
+			}
+			n++
+			seen := map[ssa.Value]bool{}
+			var okV func(v ssa.Value) bool
+			okV = func(v ssa.Value) bool {
+				if seen[v] {
+					return true
+				}
+				seen[v] = true
+				switch x := v.(type) {
+				case *ssa.Parameter:
+					return x == size
+				case *ssa.Phi:
+					for _, e := range x.Edges {
+						if !okV(e) {
+							return false
+						}
+					}
+					return true
+				case *ssa.Extract:
+					c, isC := x.Tuple.(*ssa.Call)
+					return isC && x.Index == 0 && c.Call.StaticCallee() != nil && an.RefFuncName(c.Call.StaticCallee()) == "discardN"
+				case *ssa.BinOp:
+					if x.Op != token.SUB || x.X != ssa.Value(size) {
+						return false
+					}
+					ex, isEx := x.Y.(*ssa.Extract)
+					if !isEx || ex.Index != 0 {
+						return false
+					}
+					c, isC := ex.Tuple.(*ssa.Call)
+					return isC && c.Call.StaticCallee() != nil && c.Call.StaticCallee().Name() == "ReadFull"
+				}
+				return false
+			}
+			if v := an.RetVal(ret, 0); !okV(v) {
+				bad = append(bad, fmt.Sprintf("the callback returns %s at %s", clean(an.Shape(v)), p.Pos(ret.Pos())))
+			}
+		}
+	}
+	sort.Strings(bad)
+	r.Check(n >= 4 && len(bad) == 0, rule, "kafka.(*Batch).Read → its callbacks report size, size − bytes read, or what discardN left", p.Pos(fn.Pos()), "return size, …; return size - nbytes, err (nbytes from io.ReadFull); return discardN(r, size-nbytes, n-nbytes)", strings.Join(bad, "; "))
+}
+
+// c13WriterBalancer: RoundRobin (and LeastBytes, CRC32…) keep their state between calls; a Writer without a
+// configured Balancer falls back to its own RoundRobin, which must be one object for the life of the Writer.
+// Decided: (*Writer).balancer returns w.Balancer or the address of a field of the Writer, never a fresh value.
+func c13WriterBalancer(p *load.Program, r *oblig.Report) {
+	const rule = "C13.R7 the Writer's default balancer keeps its state between calls"
+	fn := p.Func("", "(*Writer).balancer")
+	if fn == nil {
+		r.Lost(rule, "kafka.(*Writer).balancer")
+		return
+	}
+	n := 0
+	var bad []string
+	an.EachInstr(fn, func(ins ssa.Instruction) {
+		ret, ok := ins.(*ssa.Return)
+		if !ok || ret.Parent() != fn || len(ret.Results) != 1 {
+			return
+		}
+		var chk func(v ssa.Value)
+		seen := map[ssa.Value]bool{}
+		chk = func(v ssa.Value) {
+			if seen[v] {
+				return
+			}
+			seen[v] = true
+			n++
+			switch x := v.(type) {
+			case *ssa.Phi:
+				n--
+				for _, e := range x.Edges {
+					chk(e)
+				}
+			case *ssa.MakeInterface:
+				if fa, isFa := x.X.(*ssa.FieldAddr); isFa {
+					if _, isParam := fa.X.(*ssa.Parameter); isParam {
+						return
+					}
+				}
+				bad = append(bad, "returns "+clean(an.Shape(x.X))+" at "+p.Pos(ret.Pos()))
+			case *ssa.UnOp:
+				if fa, isFa := x.X.(*ssa.FieldAddr); isFa && an.FieldName(fa.X.Type(), fa.Field) == "Balancer" {
+					return
+				}
+				bad = append(bad, "returns "+clean(an.Shape(v))+" at "+p.Pos(ret.Pos()))
+			default:
+				bad = append(bad, "returns "+clean(an.Shape(v))+" at "+p.Pos(ret.Pos()))
+			}
+		}
+		chk(an.RetVal(ret, 0))
+	})
+	sort.Strings(bad)
+	r.Check(n >= 2 && len(bad) == 0, rule, "(*Writer).balancer returns w.Balancer or a balancer stored in the Writer", p.Pos(fn.Pos()), "if w.Balancer != nil { return w.Balancer }; return &w.roundRobin", strings.Join(bad, "; "))
 }
